@@ -705,6 +705,30 @@ Proof.
     + exists []. repeat split. simpl. exact Hc.
 Qed.
 
+(* the same for the right side: what a hyphen on an OPENING delimiter removes from the end of the preceding text is
+   whitespace only, and what remains ends with a non-space character (or is empty) *)
+Lemma all_space_rev w : all_space (rev w) = all_space w.
+Proof. unfold all_space. apply forallb_rev. Qed.
+
+Lemma rstrip_spec t : exists w, t = rstrip_s t ++ w /\ all_space w = true /\ stops (rev (rstrip_s t)).
+Proof.
+  unfold rstrip_s. destruct (lstrip_spec (rev t)) as (w & E & Hw & Hs).
+  exists (rev w). split; [|split].
+  - rewrite <- rev_app_distr, <- E, rev_involutive. reflexivity.
+  - rewrite all_space_rev. exact Hw.
+  - rewrite rev_involutive. exact Hs.
+Qed.
+
+(* stripping is idempotent and leaves a text that has nothing more to strip untouched *)
+Lemma lstrip_stops t : stops t -> lstrip_s t = t.
+Proof. unfold lstrip_s. destruct t as [|c t]; simpl; [reflexivity|]. intros H. rewrite H. reflexivity. Qed.
+
+Lemma lstrip_idem t : lstrip_s (lstrip_s t) = lstrip_s t.
+Proof. destruct (lstrip_spec t) as (w & _ & _ & Hs). apply lstrip_stops. exact Hs. Qed.
+
+Lemma rstrip_idem t : rstrip_s (rstrip_s t) = rstrip_s t.
+Proof. unfold rstrip_s. rewrite rev_involutive, lstrip_idem. reflexivity. Qed.
+
 Fixpoint no_markers (segs : list (str * markup)) : bool :=
   match segs with [] => true | (_, m) :: r => negb (opens m) && negb (closes m) && no_markers r end.
 
